@@ -225,6 +225,29 @@ class GrammarFacts:
             flags |= {"i": _re.I, "s": _re.S, "m": _re.M}.get(f, 0)
         return Rx(pat.to_regexp(), flags).finite_words()
 
+    def rule_regex(self, name: str, alpha: "SymAlphabet", subst: dict | None = None, _depth: int = 0) -> str:
+        """ebnf_regex of rule `name` with its `_inline` sub-rules (names starting with an underscore, which leave no node in
+        the tree) substituted by their own expansions: `x : (a | _NL)+` and `x : _item+ ; _item : a | _NL` give the same regex
+        language."""
+        if name not in self.rule_defs:
+            raise AnchorMissing(f"grammar {self.name}: rule {name} not found")
+        if _depth > 6:
+            raise AnchorMissing(f"grammar {self.name}: inline rules nest too deep / recurse at {name}")
+        sub = dict(subst or {})
+        tree = self.rule_defs[name][1]
+        from lark import Tree as LTree
+
+        def nonterms(t):
+            if isinstance(t, LTree):
+                for c in t.children:
+                    yield from nonterms(c)
+            elif getattr(t, "name", None) is not None and not t.is_term:
+                yield str(t.name)
+        for nt in set(nonterms(tree)):
+            if nt.startswith("_") and f"N:{nt}" not in sub and nt in self.rule_defs:
+                sub[f"N:{nt}"] = "(?:" + self.rule_regex(nt, alpha, subst, _depth + 1) + ")"
+        return ebnf_regex(tree, alpha, sub)
+
     def reachable_trees(self, root: str) -> set[str]:
         """Tree names that can occur strictly below a node named ``root``."""
         seen: set[str] = set()
